@@ -28,7 +28,7 @@ type c12Slot struct {
 }
 
 var c12Modes = []string{"compiled x shared document", "compiled x per-goroutine documents", "one-shot Search x shared document", "concurrent Compile/MustCompile", "NewParser per goroutine",
-	"compiled x shared Go-struct document", "one-shot Search x shared Go-struct document", "one-shot Search x many distinct expressions in rotation", "compiled x different documents, some failing, several calls per goroutine"}
+	"compiled x shared Go-struct document", "one-shot Search x shared Go-struct document", "one-shot Search x many distinct expressions in rotation", "compiled x different documents, some failing, several calls per goroutine", "compiled x prefix views of one list (same first element, different lengths)"}
 
 func gcd(a, b int) int {
 	for b != 0 {
@@ -96,6 +96,10 @@ func c12Exprs(seed uint64) []*gen.Expr {
 			steps = append(steps, gen.StIndex(0))
 		}
 		trees = append(trees,
+			// a literal on the left of a comparison, a literal on both sides, literals under every operator: the
+			// syntax tree is shared by all callers and only ever read
+			gen.MultiList(gen.Cmp("==", gen.Raw("x"), gen.Field("s")), gen.Cmp("!=", gen.LitJSON("1"), gen.Field("n")), gen.Cmp("<", gen.LitJSON("0"), gen.Field("m")), gen.Cmp("==", gen.LitJSON("[2,1]"), gen.Chain(gen.Field("aa"), gen.StIndex(0)))),
+			gen.Chain(gen.Field("ao"), gen.StFilter(gen.Or(gen.Cmp("==", gen.LitJSON("2"), gen.Field("n")), gen.Cmp(">=", gen.LitJSON("1"), gen.Field("n")))), gen.StField("s")),
 			gen.Chain(gen.Field("big"), gen.StFilter(or), gen.StField("i")),
 			gen.Chain(gen.Field("big"), gen.StFilter(and), gen.StField("i")),
 			gen.Chain(gen.Field("big"), gen.StListStar(), gen.StMultiList(pipe)),
@@ -136,7 +140,7 @@ func c12Exprs(seed uint64) []*gen.Expr {
 }
 
 func c12(r *mon.Run) {
-	r.Rule = "rounds of N in {2,4,16} goroutines released together (GOMAXPROCS 2 and 16), with no synchronisation between them until they are joined: (a) one compiled expression on one shared document, (b) one compiled expression on per-goroutine documents, (c) the one-shot Search on a shared document, (d) concurrent Compile / MustCompile of the same and of different expressions, (e) NewParser per goroutine, (f) a freshly compiled expression and (g) the one-shot Search on a shared Go-struct document (reflection paths; the first calls on a type are the concurrent ones), (h) the one-shot Search with 70 / 140 / 300 distinct expressions in rotation, every goroutine in its own order (package-level caches see hits, misses and evictions at once), (i) one compiled expression whose wildcard / projection right-hand side fails on a quarter of 8 documents, 12 calls per goroutine over those documents (error paths of one call meet the scratch state of another); " +
+	r.Rule = "rounds of N in {2,4,16} goroutines released together (GOMAXPROCS 2 and 16), with no synchronisation between them until they are joined: (a) one compiled expression on one shared document, (b) one compiled expression on per-goroutine documents, (c) the one-shot Search on a shared document, (d) concurrent Compile / MustCompile of the same and of different expressions, (e) NewParser per goroutine, (f) a freshly compiled expression and (g) the one-shot Search on a shared Go-struct document (reflection paths; the first calls on a type are the concurrent ones), (h) the one-shot Search with 70 / 140 / 300 distinct expressions in rotation, every goroutine in its own order (package-level caches see hits, misses and evictions at once), (i) one compiled expression whose wildcard / projection right-hand side fails on a quarter of 8 documents, 12 calls per goroutine over those documents (error paths of one call meet the scratch state of another), (j) one compiled expression on documents that are prefixes of one list (same address, different lengths: whatever identifies the same call must look at all of the document); " +
 		"expressions: the function matrix of C06 with document-fed and literal-fed arguments (literals live in the shared AST), sorts of sorts, six expressions 260 operators deep or long (|| and && chains as filter conditions over 24 elements, pipes, nots, nested multi-selects), raw-string-heavy expressions, every node kind, seeded random trees. Monitors: the race detector (any report with a library frame), every goroutine's result against the reference model's allowed set, the compiled AST before/after, and the process surviving (fatal errors are seen by the driver). " +
 		"Non-trivial = distinct (mode, N, expression) rounds whose calls really overlapped in time (measured from per-goroutine timestamps)."
 	r.Floor = 200
@@ -148,6 +152,12 @@ func c12(r *mon.Run) {
 	}
 	trees := c12Exprs(r.Seed)
 	wildTrees, wildDocs := c12Wild()
+	pvList := make([]interface{}, 600)
+	for k := range pvList {
+		pvList[k] = map[string]interface{}{"n": float64(k % 7), "i": float64(k)}
+	}
+	pvTrees := []*gen.Expr{gen.Func("length", gen.Current()), gen.Chain(nil, gen.StIndex(-1), gen.StField("i")), gen.Func("sum", gen.Chain(nil, gen.StListStar(), gen.StField("i"))),
+		gen.Chain(nil, gen.StFilter(gen.Cmp(">", gen.Field("n"), gen.LitJSON("5"))), gen.StField("i")), gen.Func("max_by", gen.Current(), gen.ExpRef(gen.Field("i"))), gen.Chain(nil, gen.StSliceS("-3", "", ""), gen.StField("i"))}
 	var baseDoc interface{} = c06BaseDoc()
 	rounds := tierPick(r, 7000, 100000)
 	prevProcs := runtime.GOMAXPROCS(0)
@@ -214,6 +224,24 @@ func c12(r *mon.Run) {
 				}
 				wcalls = make([][]mon.Observed, N)
 			}
+			var pviews []interface{} // mode 9: documents that start at the same address and differ in length only
+			var pres []ref.Result
+			if mode == 9 {
+				tree = pvTrees[(i/len(c12Modes))%len(pvTrees)]
+				expr = gen.Spell(tree)
+				j2, co2 := apiCompile(expr)
+				if co2.Panicked || co2.Err != nil {
+					r.Inconclusive("C12 workload expression does not compile: " + expr)
+					return
+				}
+				jp = j2
+				before = jmespath.VerifSexpr(jmespath.VerifAST(jp))
+				for k := 0; k < N; k++ {
+					v := pvList[:1+(k*37+i)%len(pvList)]
+					pviews = append(pviews, interface{}(v))
+					pres = append(pres, ref.RefSet(tree, v, gen.Quirks{}))
+				}
+			}
 			otherExpr := gen.Spell(trees[(i*31+7)%len(trees)])
 			// mode 7: a window of W distinct expressions, each goroutine visits all of them in its own order
 			var wexprs []string
@@ -276,6 +304,8 @@ func c12(r *mon.Run) {
 							}
 							return nil, nil
 						})
+					case 9:
+						s.o = apiJP(jp, pviews[k])
 					case 8:
 						const calls = 12
 						wcalls[k] = make([]mon.Observed, calls)
@@ -333,6 +363,12 @@ func c12(r *mon.Run) {
 					return
 				}
 				switch mode {
+				case 9:
+					if pres[k].Skipped == "" && !pres[k].DontCare && !matches(pres[k], s.o) {
+						r.Violate(&mon.Violation{Workload: "rounds", Index: i, API: c12Modes[mode], Expr: expr, DocDesc: fmt.Sprintf("the first %d of %d elements of one list", len(pviews[k].([]interface{})), len(pvList)),
+							Expected: "what the same call returns when made alone: " + clipStr(expectedString(pres[k]), 400), Observed: fmt.Sprintf("goroutine %d of %d: %s", k, N, clipStr(s.o.String(), 400)), Class: "concurrent calls on prefix views of one list: result differs"})
+						return
+					}
 				case 8:
 					for j, o := range wcalls[k] {
 						d := (k*3 + j) % len(wildDocs)
